@@ -49,6 +49,9 @@ type RaftGroup struct {
 	processSnapshotFn ProcessFn
 	snapshotFn        SnapshotFn
 
+	// Closed when the loop started by Start has ended (nil until Start)
+	loopDone chan struct{}
+
 	// Last membership change of each node applied since this group was started (zero group only)
 	membershipChanges   map[uint64]membershipChange
 	membershipChangeSeq uint64
@@ -159,13 +162,22 @@ func (this *RaftGroup) Start() error {
 			return err
 		}
 	}
-	go this.run()
+	this.loopDone = make(chan struct{})
+	go func() {
+		defer close(this.loopDone)
+		this.run()
+	}()
 	return nil
 }
 
+// Stop returns once the group's loop has ended: the loop writes to the log store, and whoever
+// stops a group (unloadRaft) goes on to delete that log.
 func (this *RaftGroup) Stop() {
 	this.raft.Stop()
 	this.ctxCancel()
+	if this.loopDone != nil {
+		<-this.loopDone
+	}
 
 	if err := this.transport.removeGroup(this.id); err != nil {
 		this.log.Error(err)
